@@ -28,6 +28,7 @@ type World struct {
 	byName  map[string]*ssa.Function
 	cg      *CallGraph
 	modsets map[*ssa.Function]*modSet
+	locks   *lockAnalysis
 }
 
 // brokenf ends the run with exit 2: the checker could not decide. It never prints a
